@@ -390,12 +390,19 @@ Proof.
   destruct (windowedb [] ops (run c init ops)) eqn:Ew; [|reflexivity].
   apply windowedb_windowed in Ew. destruct (Hfull ltac:(constructor) Ew) as [F1 _]. exact F1.
 Qed.
+(* what C03's checker accepts call by call, the Close-only reading accepts *)
+Lemma chk_C03_close_lost : forall tr last hs, chk_C03 last tr = true -> chk_close_lost last hs tr = true.
+Proof.
+  induction tr as [|outs tr IH]; intros last hs H; destruct hs as [|h hs]; cbn [chk_close_lost]; try reflexivity.
+  cbn [chk_C03] in H. destruct (chk_call last outs) as [last'|]; [|discriminate]. apply IH. exact H.
+Qed.
 Theorem chk_C19_obs_run c ops : 0 <= maxSize c -> clock_ok ops ->
   chk_C19_obs (maxSize c) (timeout c) (map exact ops) (run c init ops) = true.
 Proof.
   intros Hmax Hclk. unfold chk_C19_obs. rewrite early_exact.
   pose proof (walk_run c ops init w0 (SimL_init c) eq_refl Hclk Hmax) as [(V1 & V2 & V3) Hfull]. cbn zeta in *.
   rewrite V2, V3. cbn [andb].
+  rewrite (chk_C03_close_lost _ None (map exact ops) (run_chk_C03 c ops init [] InvL_init)). rewrite andb_true_r.
   destruct (windowedb [] ops (run c init ops)) eqn:Ew; [|reflexivity].
   apply windowedb_windowed in Ew. destruct (Hfull ltac:(constructor) Ew) as [_ F2]. exact F2.
 Qed.
